@@ -47,8 +47,14 @@ import (
 	"google.golang.org/protobuf/zverif/schema"
 )
 
-// Batch is the content of the file named by C41_BATCH.
+// Batch is the content of the file named by C41_BATCH: the units linked into the program. Units do
+// not share file paths or full names (the harness prefixes the packages and paths of all but one).
 type Batch struct {
+	Units []Unit `json:"units"`
+}
+
+// Unit is one schema set generated at one API level.
+type Unit struct {
 	Level    string   `json:"level"`
 	Files    [][]byte `json:"files"`    // descriptor protos handed to the generator (wire form), dependency order
 	Expected [][]byte `json:"expected"` // what each generated package must register (Files minus source info and source-retention options)
@@ -59,6 +65,7 @@ type Batch struct {
 // Req is one request line.
 type Req struct {
 	Op     string     `json:"op"`
+	Unit   int        `json:"unit"`
 	Msg    string     `json:"msg,omitempty"`  // full name of the message type
 	M      *model.Msg `json:"m,omitempty"`    // content
 	Wire   []byte     `json:"wire,omitempty"` // perturbed-but-equivalent reference encoding of M
@@ -80,7 +87,7 @@ type Resp struct {
 }
 
 type state struct {
-	batch Batch
+	batch Unit
 	files []*descriptorpb.FileDescriptorProto
 	regI  *protoregistry.Files // descriptors built from the input protos (protodesc), independent of the generated ones
 	ready bool
@@ -88,7 +95,7 @@ type state struct {
 
 // Main is the whole program.
 func Main() {
-	st, err := load(os.Getenv("C41_BATCH"))
+	sts, err := load(os.Getenv("C41_BATCH"))
 	in := bufio.NewReaderSize(os.Stdin, 1<<22)
 	out := bufio.NewWriter(os.Stdout)
 	for {
@@ -113,6 +120,11 @@ func Main() {
 					r.Error = "harness: bad request: " + e.Error()
 					return
 				}
+				if q.Unit < 0 || q.Unit >= len(sts) {
+					r.Error = fmt.Sprintf("harness: no unit %d", q.Unit)
+					return
+				}
+				st := sts[q.Unit]
 				var v any
 				var e error
 				switch q.Op {
@@ -140,22 +152,27 @@ func Main() {
 	}
 }
 
-func load(path string) (*state, error) {
+func load(path string) ([]*state, error) {
 	b, err := os.ReadFile(path)
 	if err != nil {
 		return nil, err
 	}
-	st := &state{}
-	if err := json.Unmarshal(b, &st.batch); err != nil {
+	var batch Batch
+	if err := json.Unmarshal(b, &batch); err != nil {
 		return nil, err
 	}
-	if st.files, err = schema.Unmarshal(st.batch.Files); err != nil {
-		return nil, err
+	var out []*state
+	for _, u := range batch.Units {
+		st := &state{batch: u}
+		if st.files, err = schema.Unmarshal(u.Files); err != nil {
+			return nil, err
+		}
+		if st.regI, err = schema.Build(st.files); err != nil {
+			return nil, err
+		}
+		out = append(out, st)
 	}
-	if st.regI, err = schema.Build(st.files); err != nil {
-		return nil, err
-	}
-	return st, nil
+	return out, nil
 }
 
 func canon(p *descriptorpb.FileDescriptorProto) (*descriptorpb.FileDescriptorProto, error) {
@@ -303,6 +320,32 @@ func hasLazy(md protoreflect.MessageDescriptor, seen map[protoreflect.FullName]b
 		}
 	}
 	return false
+}
+
+// jsonNamesUnique: no message below md has two fields with one JSON name (legal in proto2 and under
+// json_format = LEGACY_BEST_EFFORT; the JSON form of such a message cannot be read back).
+func jsonNamesUnique(md protoreflect.MessageDescriptor, seen map[protoreflect.FullName]bool) bool {
+	if seen[md.FullName()] {
+		return true
+	}
+	seen[md.FullName()] = true
+	names := map[string]bool{}
+	fs := md.Fields()
+	for i := 0; i < fs.Len(); i++ {
+		fd := fs.Get(i)
+		if names[fd.JSONName()] {
+			return false
+		}
+		names[fd.JSONName()] = true
+		sub := fd.Message()
+		if fd.IsMap() {
+			sub = fd.MapValue().Message()
+		}
+		if sub != nil && !jsonNamesUnique(sub, seen) {
+			return false
+		}
+	}
+	return true
 }
 
 // Case compares the generated type of q.Msg with dynamicpb and with the model.
@@ -467,7 +510,7 @@ func (st *state) Case(q Req) (*Resp, error) {
 				if s := model.Diff(mdI, model.Snapshot(d3), model.Snapshot(g3), eqBits, nil); s != "" {
 					return nil, fmt.Errorf("protojson.Unmarshal: dynamicpb vs generated: %s (input %s)", s, jg)
 				}
-				if s := model.Diff(mdI, v, model.Snapshot(g3), model.EqualOpts{IgnoreUnknown: true}, nil); s != "" && !st.batch.WKT {
+				if s := model.Diff(mdI, v, model.Snapshot(g3), model.EqualOpts{IgnoreUnknown: true}, nil); s != "" && !st.batch.WKT && jsonNamesUnique(mdI, map[protoreflect.FullName]bool{}) {
 					return nil, fmt.Errorf("generated: JSON round trip differs from the model: %s (JSON %s)", s, jg)
 				}
 				res.JSON = true
